@@ -10,14 +10,19 @@ open Conv
 let split c s = Stdlib.String.split_on_char c s
 let gen_value seed len =
   Stdlib.List.init len (fun i -> n_of_int ((seed + i * 13 + (i lsr 8)) land 255))
-let fnv (l : BinNums.coq_N list) =
-  Stdlib.List.fold_left (fun h b -> ((h lxor (int_of_n b)) * 16777619) land 0xFFFFFFFF) 2166136261 l
+(* CRC-32 (IEEE, as zlib.crc32) of the bytes *)
+let crc_table = Stdlib.Array.init 256 (fun n ->
+  let c = ref n in
+  for _ = 0 to 7 do c := if !c land 1 = 1 then 0xEDB88320 lxor (!c lsr 1) else !c lsr 1 done; !c)
+let crc32 (l : BinNums.coq_N list) =
+  (Stdlib.List.fold_left (fun c b -> crc_table.((c lxor (int_of_n b)) land 255) lxor (c lsr 8)) 0xFFFFFFFF l)
+  lxor 0xFFFFFFFF
 let ios = int_of_string
 
 let item_str (it : Cache.item) =
   Printf.sprintf "%s,%s,%d,%s,%d,%08x" (hex_of_bytes (it.Cache.i_route)) (decimal_of_n (it.Cache.i_host))
     (int_of_n (it.Cache.i_mime)) (decimal_of_n (it.Cache.i_time)) (Stdlib.List.length (it.Cache.i_data))
-    (fnv (it.Cache.i_data))
+    (crc32 (it.Cache.i_data))
 
 let final_str (c : Cache.cache) =
   Printf.sprintf "F%s:[%s]" (decimal_of_n (c.Cache.c_size))
@@ -71,7 +76,7 @@ let parse_req s =
 let req_case lim tl qs =
   let (ps, fin) = Cache.hrun (Cache.empty lim tl) qs in
   let body = Stdlib.String.concat ";" (Stdlib.List.map (fun p ->
-    Printf.sprintf "R%d,%d,%08x" (int_of_n (p.Cache.p_mime)) (Stdlib.List.length (p.Cache.p_body)) (fnv (p.Cache.p_body))) ps) in
+    Printf.sprintf "R%d,%d,%08x" (int_of_n (p.Cache.p_mime)) (Stdlib.List.length (p.Cache.p_body)) (crc32 (p.Cache.p_body))) ps) in
   let flags = Stdlib.String.concat "" (Stdlib.List.map (fun p -> if p.Cache.p_cached then "1" else "0") ps) in
   (match fin with
    | Prelude.Ok c -> body ^ " | " ^ final_str c
@@ -87,12 +92,12 @@ let mask62 = (1 lsl 62) - 1
 let mix h x = (h * 1000003 + x) land mask62
 let exh_routes = [| "2f61"; "2f6162"; "2f612f" |]
 let item_hash (it : Cache.item) =
-  let h = mix 11 (fnv it.Cache.i_route) in
+  let h = mix 11 (crc32 it.Cache.i_route) in
   let h = mix h (int_of_n it.Cache.i_host) in
   let h = mix h (int_of_n it.Cache.i_mime) in
   let h = mix h (int_of_n it.Cache.i_time) in
   let h = mix h (Stdlib.List.length it.Cache.i_data) in
-  mix h (fnv it.Cache.i_data)
+  mix h (crc32 it.Cache.i_data)
 let fin_hash (c : Cache.cache) =
   Stdlib.List.fold_left (fun h it -> mix h (item_hash it)) (mix (mix 7 5) (int_of_n c.Cache.c_size)) c.Cache.c_data
 
